@@ -501,6 +501,17 @@ class CNF(SimpleSequence[Clause]):
     def assert_k_of_n(self, k: int, in_list: Sequence[Var]):
         # TODO DOC
         # TODO: Describe this function's purpose.
+        if k > len(in_list):
+            # More than all of the variables can't be true, and the
+            # comparison below would only look at the low bits of `k`,
+            # so make the formula unsatisfiable directly
+            unsat_var = in_list[0] if in_list else Var(1)
+            self.set_to_one(unsat_var)
+            self.zero_out([unsat_var])
+            return
+        if not in_list:
+            # Zero of zero variables: nothing to assert
+            return
         in_binary =  int_to_binary(k)
         sum_bits = self.pop_count(in_list, len(in_binary)+1)
         # Add zero padding to the left.
